@@ -20,7 +20,7 @@ RULE = ("real Router with recording devices (one of them a real generated Driver
         "distinct = hash(model state [and path, when reached by a non-shortest path], operation)")
 ASSUMPTIONS = ["which devices a client-originated message reaches is decided by C04",
                "enableBLOB from an unregistered sender is outside the quantifier"]
-REQUIRED_EVENTS = ["enableBLOB_without_a_policy_cases", "histories_over_padded_and_case_variant_names", "states", "transitions", "device_originated_messages", "deliveries_observed", "reentrant_operations", "reentrant_sends_from_inside_a_delivery", "library_client_handshake_scenarios"]
+REQUIRED_EVENTS = ["updates_of_a_driver_observed_at_its_own_snooping_client", "enableBLOB_without_a_policy_cases", "histories_over_padded_and_case_variant_names", "states", "transitions", "device_originated_messages", "deliveries_observed", "reentrant_operations", "reentrant_sends_from_inside_a_delivery", "library_client_handshake_scenarios"]
 EXHAUSTIVE_NOTE = "quick: universe 2 devices (A, real driver B) + catch-all x 2 clients, complete; thorough: 3 devices x 3 clients, complete"
 QUICK_SHARDS = 4
 JUDGE = "device"
@@ -108,6 +108,15 @@ async def _handshake_scenario(ctx, k):
         ctx.violate("snooping-client-misses-non-blob-update", f"snooping client shows {sv.get('TXT')}", case)
     if sv.get("IMG", {}).get("elements", {}).get("IMG_E0", (None, None))[1] is not None:
         ctx.violate("snooping-client-received-blob-despite-never", "a snooping client (Never) holds a BLOB payload", case)
+    # A driver's snooping client is a registered client other than that driver: what CAM2 itself publishes reaches CAM2's own
+    # snooping client like everybody else (it got CAM2's definitions when the connected client's handshake made every device define).
+    D.element_of(other, "g", "t", "e0").value = f"own{k}"
+    await sess.quiesce()
+    own = stack.client_view(snoop).get("CAM2", {}).get("TXT", {}).get("elements", {}).get("TXT_E0", (None, None))[1]
+    ctx.count("updates_of_a_driver_observed_at_its_own_snooping_client")
+    if own != f"own{k}":
+        ctx.violate("snooping-client-misses-update-of-its-own-driver", f"CAM2 published TXT_E0 = 'own{k}'; CAM2's own snooping client (a registered client "
+                                                                         f"other than the sender) shows {own!r}", case)
     ctx.case(("handshake", k), nontrivial=True, sample={"scenario": "library clients announce their policies", "control": kinds[0], "blob": kinds[1]})
     await sess.close()
 
